@@ -122,7 +122,22 @@ PROPS["C04"] = {
     "level_note": "Trusted: Lean kernel; extractor; harness.",
 }
 
+def _c13_property(r):
+    """"Original documents that carry an id (or, for DID documents, a context) are refused" - on the implementation's own answer"""
+    if r["kind"] != "origdoc":
+        return None
+    lab, imp = r["case"].get("label", ""), r["impl"]
+    if not isinstance(imp, dict):
+        return None
+    if lab.startswith("origdoc/id") and (imp.get("doc") == "ok" or imp.get("did") == "ok"):
+        return "origdoc/with-id/accepted"
+    if lab.startswith("origdoc/context") and imp.get("did") == "ok":
+        return "origdoc/with-context/accepted"
+    return None
+
+
 PROPS["C13"] = {
+    "property_check": _c13_property,
     "theorem_modules": ["Sidetree.Props.C13"],
     "prescribes": "Sidetree.Validator.validate (Props.C13: validID_iff, matrix_exact, publicKeysOK_iff, servicesOK_iff, endpointOK_iff, validate_replace, ...)",
     "obligations": [
@@ -218,7 +233,15 @@ PROPS["C11"] = {
                   "application (no node sharing between operations).",
 }
 
+def _c14_property(r):
+    """"Documents carrying an id are refused" - on the implementation's own answer"""
+    if r["kind"] == "patchrt" and r["case"].get("label") == "doc/with-id" and isinstance(r["impl"], dict) and r["impl"].get("class") == "ok":
+        return "patchrt/doc-with-id/accepted"
+    return None
+
+
 PROPS["C14"] = {
+    "property_check": _c14_property,
     "theorem_modules": ["Sidetree.Props.C14", "Sidetree.Props.C14General"],
     "prescribes": "Sidetree.PatchBuild.fromDocument + Sidetree.Composer.applyPatches (Props.C14)",
     "obligations": [
